@@ -170,15 +170,21 @@ class Deck:
             return None
         return all(v < 0 for v in vals)
 
-    def holds(self, e, pt, stack=()):
+    def holds(self, e, q, stack=(), pt0=None):
+        """q: the point in the frame moved by the cell's TRCL (used for the cell's own surfaces, including those
+        inside #( ... )); pt0: the point in the frame of the cell's universe, used for `#n`: the complement of another
+        cell is NOT moved by this cell's TRCL (convention of the converter, validated upstream by the
+        trcl_complement* oracle decks -- calibrated, listed as an assumption)."""
+        if pt0 is None:
+            pt0 = q
         k = e[0]
         if k == 's':
-            n = self.sense_neg(e[1], pt)
+            n = self.sense_neg(e[1], q)
             if n is None:
                 return None
             return n if e[1] < 0 else not n
         if k == 'f':
-            n = self.sense_neg(e[1], pt, e[2])
+            n = self.sense_neg(e[1], q, e[2])
             if n is None:
                 return None
             return n if e[1] < 0 else not n
@@ -186,12 +192,12 @@ class Deck:
             if e[1] in stack:
                 raise ValueError('cyclic complement')
             c = self.cells[e[1]]
-            v = self.cell_holds(c, pt, stack + (e[1],))
+            v = self.cell_holds(c, pt0, stack + (e[1],))
             return None if v is None else not v
         if k == '~':
-            v = self.holds(e[1], pt, stack)
+            v = self.holds(e[1], q, stack, pt0)
             return None if v is None else not v
-        vals = [self.holds(a, pt, stack) for a in e[1:]]
+        vals = [self.holds(a, q, stack, pt0) for a in e[1:]]
         if k == '*':
             if any(v is False for v in vals):
                 return False
@@ -209,7 +215,7 @@ class Deck:
         trcl = c.trcl
         if trcl is not None:
             q = self.to_aux(trcl, pt)
-        return self.holds(base.expr, q, stack)
+        return self.holds(base.expr, q, stack, pt)
 
     def locate(self, pt, universe=0, depth=0):
         """Returns None (too close to a surface), or a list of (cell id, ...) from level 0 down to the leaf."""
@@ -364,3 +370,81 @@ def probe_points(seed, n=60, span=3.0):
         pts.append((round(rng.uniform(-span, span), 3) + 0.00013, round(rng.uniform(-span, span), 3) - 0.00029,
                     round(rng.uniform(-span, span), 3) + 0.00041))
     return pts
+
+
+# ------------------------------------------------------------------ universes / FILL / TRCL
+
+INLINE_TRS = [
+    ('inline', False, [0.5, 0.25, 0.0]),
+    ('inline', False, [0.25, 0.0, 0.0, 0.0, 1.0, 0.0, -1.0, 0.0, 0.0, 0.0, 0.0, 1.0]),
+    ('inline', True, [0.0, 0.5, 0.0, 90.0, 0.0, 90.0, 180.0, 90.0, 90.0, 90.0, 90.0, 0.0]),
+    ('inline', False, [0.0, 0.0, 0.0]),
+    ('inline', False, [-0.5, 0.0, 0.25, 0.6, 0.8, 0.0, -0.8, 0.6, 0.0, 0.0, 0.0, 1.0]),
+]
+
+
+def _partition(d, rng, universe, first_id, n_cells, surf_ids, mats, depth=1, fillers=()):
+    """Cells first_id.. of `universe` partitioning all space; some of them filled with one of `fillers`."""
+    prev = []
+    cid = first_id
+    out = []
+    for i in range(n_cells):
+        if i < n_cells - 1:
+            e = random_expr(rng, surf_ids, depth)
+            for p in prev:
+                e = ('*', e, ('#', p))
+        else:
+            e = None
+            for p in prev:
+                e = ('#', p) if e is None else ('*', e, ('#', p))
+            if e is None:
+                e = (':', ('s', surf_ids[0]), ('s', -surf_ids[0]))
+        mat = rng.choice(mats)
+        rho = rng.choice(RHOS)
+        c = Cell(cid, mat, rho if mat else None, e, imp=1, universe=universe)
+        if mat:
+            d.materials[mat] = MATS[mat]
+        if fillers and rng.random() < 0.6:
+            c.fill = rng.choice(fillers)
+            c.mat, c.rho = 0, None
+            r = rng.random()
+            if r < 0.45:
+                c.filltr = rng.choice(INLINE_TRS)
+            elif r < 0.6 and d.trs:
+                c.filltr = ('num', rng.choice(list(d.trs)))
+            if rng.random() < 0.35:
+                c.trcl = rng.choice(INLINE_TRS[:3] + [('num', k) for k in d.trs])
+        d.add_cell(c)
+        out.append(cid)
+        prev.append(cid)
+        cid += 1
+    return out
+
+
+def fill_deck(seed):
+    """Universe tree of depth <= 3 (one universe may be used by two containers), FILL with / without transformation
+    (number, inline, starred), TRCL on containers."""
+    rng = random.Random(f'fill{seed}')
+    d = Deck(f'fill deck seed {seed}')
+    pool = rng.sample(SURF_POOL[:13], 6)
+    for i, (mn, params) in enumerate(pool, start=1):
+        d.add_surf(Surf(i, mn, params))
+    for k in (1, 2):
+        if rng.random() < 0.7:
+            d.trs[k] = rng.choice(ROTS)
+    ids = list(d.surfs)
+    depth = rng.choice([1, 2, 2, 3])
+    fillers = ()
+    first = 100 * depth
+    for level in range(depth, 0, -1):          # deepest universe first so that cell numbers stay unique
+        _partition(d, rng, level, 100 * level, rng.choice([2, 3]), ids, [1, 2, 3, 4, 0], 1, fillers)
+        fillers = (level,)
+    top = _partition(d, rng, 0, 1, rng.choice([2, 3, 4]), ids, [1, 2, 0], 1, fillers)
+    # importances: level-0 only matter
+    for c in d.cells.values():
+        c.imp = 1
+    if rng.random() < 0.4:
+        d.cells[rng.choice(top)].imp = 0
+    # re-order: MCNP allows any order; put level 0 first
+    d.cells = dict(sorted(d.cells.items()))
+    return d
